@@ -41,6 +41,9 @@ func cfgQuiet(path string) gameboy.Config {
 	return gameboy.Config{RomFilename: path, DisableVideoOutput: true, DisableAudioOutput: true}
 }
 
+// twinHung: a frame of the twin part never returned in this process (its goroutine still spins)
+var twinHung bool
+
 func run(c *rig.Ctx) {
 	c.Require("twin_frames", "progress_cases", "timer_irq_cases", "stop_close_cases", "stop_cancel_in_poll_cases", "stop_cancel_other_goroutine_cases", "stop_cases_lcd_off", "timer_overflows_in_last_cycles_of_frame", "timer_irq_phase_cases_with_overflow", "stop_cases_deadline_context", "stop_cases_parent_context", "stop_cases_context_over_before_run")
 
@@ -68,18 +71,44 @@ func run(c *rig.Ctx) {
 		}
 		path := emu.TempROM(p.ROM, "c26")
 		defer os.Remove(path)
-		x := gameboy.New(cfgQuiet(path))
-		var fx []uint64
-		for f := 0; f < frames; f++ {
-			x.XRunFrame(context.Background())
-			fx = append(fx, emu.StateOf(x))
-		}
+		// the documented stepping first (it ends by construction), timed
 		y := gameboy.New(cfgQuiet(path))
+		var fys []uint64
+		t0 := time.Now()
 		for f := 0; f < frames; f++ {
 			for k := 0; k < frameCycles; k++ {
 				emu.Step(y)
 			}
-			if fy := emu.StateOf(y); fy != fx[f] {
+			fys = append(fys, emu.StateOf(y))
+		}
+		perFrame := time.Since(t0) / time.Duration(frames)
+		if twinHung {
+			return // a frame that never ended is still spinning in this process
+		}
+		x := gameboy.New(cfgQuiet(path))
+		var fx []uint64
+		for f := 0; f < frames; f++ {
+			done := make(chan struct{})
+			go func() { x.XRunFrame(context.Background()); close(done) }()
+			select {
+			case <-done:
+			case <-time.After(20*time.Second + 500*perFrame):
+				twinHung = true
+				c.Violate("frame-does-not-end", fmt.Sprintf("%s: frame %d had not ended after 20 s plus 500 times the time the same 17556 machine cycles took when stepped in the documented order (%v)", p.Describe(), f+1, perFrame),
+					map[string]any{"program": p.Describe(), "frame": f + 1})
+				return
+			}
+			fx = append(fx, emu.StateOf(x))
+		}
+		for f := 0; f < frames; f++ {
+			fy := fys[f]
+			if fy != fx[f] {
+				y = gameboy.New(cfgQuiet(path))
+				for g := 0; g <= f; g++ {
+					for k := 0; k < frameCycles; k++ {
+						emu.Step(y)
+					}
+				}
 				// which component differs?
 				which := ""
 				x2 := gameboy.New(cfgQuiet(path))
